@@ -107,7 +107,17 @@ func discharge(ob *Obligation, workDir string, timeoutS int, agree bool) {
 		first = ob.Timeout / 3
 	}
 	if ob.Cover {
-		r := runSolver(solvers[0], file, 2)
+		// a vacuity probe is refuted if ANY back end proves the assumptions contradictory (an inconsistent axiom
+		// set was once found by cvc5 in a second where z3 saw nothing): ask z3 and cvc5 side by side
+		var r, r2 solveResult
+		var wg sync.WaitGroup
+		wg.Add(2)
+		go func() { defer wg.Done(); r = runSolver(solvers[0], file, 2) }()
+		go func() { defer wg.Done(); r2 = runSolver(solvers[1], file, 3) }()
+		wg.Wait()
+		if r2.status == "unsat" && r.status != "unsat" {
+			r = r2
+		}
 		ob.Solver, ob.TimeS, ob.Output = r.solver, r.dur, r.out
 		ob.Result = r.status
 		if r.status != "unsat" && r.status != "error" {
